@@ -1,7 +1,7 @@
 SPEC = {
     "id": "C01",
     "harness": "c01",
-    "n": {"quick": 900, "thorough": 20000},
+    "n": {"quick": 800, "thorough": 20000},
     "harness_args": lambda tier: (["-confirm-ms", "20000", "-shrink-calls", "60"] if tier == "quick"
                                   else ["-confirm-ms", "120000", "-shrink-calls", "400"]),
     "harness_timeout": 20000,
